@@ -39,11 +39,19 @@ func execNetworkSimplex(g *graph.DGraph, params graph.Params) {
 		},
 	)
 
+	// the separation between two neighbours in the auxiliary graph is the distance between their centre points,
+	// so the auxiliary layer is the x of the node's centre
+	leftBound := math.Inf(+1)
 	for _, l := range g.Layers {
 		for _, n := range l.Nodes {
 			l.H = max(l.H, n.H)
-			n.X = float64(p.nodes[n.ID].Layer)
+			n.X = float64(p.nodes[n.ID].Layer) - n.W/2
+			leftBound = min(leftBound, n.X)
 		}
+	}
+	// shift so that the leftmost node is at x = 0
+	for _, n := range g.Nodes {
+		n.X -= leftBound
 	}
 }
 
